@@ -38,7 +38,6 @@
 package main
 
 import (
-	"bytes"
 	"encoding/json"
 	"fmt"
 	"strings"
@@ -373,8 +372,6 @@ type malformed struct {
 
 func malformedList() []malformed {
 	var out []malformed
-	tailReq := "GET /next HTTP/1.1\r\nHost: h\r\n\r\n"
-	tailRes := "HTTP/1.1 200 OK\r\nContent-Length: 0\r\n\r\n"
 	addRaw := func(kind, desc, s string, client, judged bool) {
 		t := tailReq
 		if client {
@@ -501,6 +498,50 @@ func run(tier string, sh *vkit.Shard, p *vkit.Part) {
 		item(func() { e.malformedItem(mf); p.Count("d.malformed_streams", 1) })
 	}
 
+	// (d2) the framing CR/LF neighbourhood
+	for _, fb := range framingBases(thorough) {
+		fb := fb
+		selfOK := 0
+		item(func() { e.framingSelfCheck(fb, true); p.Count("d2.bases", 1) })
+		for _, eol := range fb.m.EOLs {
+			eol := eol
+			item(func() {
+				if selfOK == 0 {
+					selfOK = -1
+					if e.framingSelfCheck(fb, false) {
+						selfOK = 1
+					}
+				}
+				if selfOK < 0 {
+					p.Count("d2.items_skipped_after_failed_self_check", 1)
+					return
+				}
+				e.framingItem(fb, eol, thorough)
+			})
+			// every double cut: one item per neighbour kind (they are ~50 times heavier)
+			kinds := doubleCutQuick
+			if thorough {
+				kinds = doubleCutThorough
+			}
+			if fb.core || (thorough && !fb.wide) {
+				for _, k := range kinds {
+					k := k
+					item(func() {
+						if selfOK == 0 {
+							selfOK = -1
+							if e.framingSelfCheck(fb, false) {
+								selfOK = 1
+							}
+						}
+						if selfOK > 0 {
+							e.framingDoubleItem(fb, eol, thorough, map[string]bool{k: true})
+						}
+					})
+				}
+			}
+		}
+	}
+
 	// (c) limits
 	for _, lm := range limitMessages() {
 		lm := lm
@@ -618,6 +659,19 @@ func replay(_ string, raw json.RawMessage) string {
 		_ = json.Unmarshal(raw, &li)
 		add(limitOracle(li.Bodies, c))
 		fmt.Printf("verdict=%q max-cached=%d retain-over=%d\n%s", lastLimited.Verdict, lastLimited.MaxCached, lastLimited.RetainOver, lastLimited.Log)
+	case strings.HasPrefix(in.Note, "d2."):
+		var fi struct {
+			Kind string `json:"kind"`
+		}
+		_ = json.Unmarshal(raw, &fi)
+		ref := httpgen.StrictFraming(c.Stream)
+		fmt.Printf("strict recogniser: %s, %d complete message(s), %s at offset %d (%s)\n", ref.Status, ref.Complete, ref.Why, ref.Off, ref.Line)
+		r := httpgen.Run(c, false)
+		fmt.Printf("verdict=%q completes=%v\n%s", r.Verdict, r.CompleteAt, r.Log)
+		add(judgeResult(c, r))
+		if v, _ := framingJudge(fi.Kind, c, ref, r); v != nil {
+			add([][2]string{*v})
+		}
 	case strings.HasPrefix(in.Note, "d.malformed"):
 		var mi struct {
 			Kind string `json:"kind"`
